@@ -63,6 +63,7 @@ type FnEnc struct {
 	blk   *ssa.BasicBlock
 	oblCount map[string]int
 	arrViews []string
+	viewElem map[string]bool
 }
 
 type deferredCall struct {
@@ -304,7 +305,7 @@ func (f *FnEnc) term(v ssa.Value) Term {
 			return f.e.funcRef(t.Fn)
 		}
 	case FieldPtr:
-		f.e.unsup("address of scalar field %s escapes", v.Name())
+		f.e.hazard("address of scalar field %s escapes", v.Name())
 	}
 	f.e.unsup("value %s is not scalar (%T)", v.Name(), x)
 	return Term{}
@@ -668,8 +669,14 @@ func (f *FnEnc) execInstrSafe(ins ssa.Instruction) (stop bool) {
 			if !ok {
 				panic(r)
 			}
-			f.setTaint(fmt.Sprintf("%s: %s [%s]", f.e.posStr(ins.Pos()), u.why, ins.String()))
-			// havoc everything and give the result an arbitrary value
+			// Unsupported construct: havoc everything and give the result an arbitrary value. This is a
+			// sound over-approximation; only constructs that could hide aliasing (hazards) taint.
+			msg := fmt.Sprintf("%s: %s [%s]", f.e.posStr(ins.Pos()), u.why, ins.String())
+			if u.hazard {
+				f.setTaint(msg)
+			} else {
+				f.e.abstracted[fnDisplayName(f.fn)+": "+msg+" (havocked)"] = true
+			}
 			f.st = f.e.havocState(f.st, nil)
 			if v, ok := ins.(ssa.Value); ok {
 				func() {
@@ -829,4 +836,14 @@ func (f *FnEnc) localType(name string) types.Type {
 		}
 	}
 	return nil
+}
+
+// noteArrView records that a non-local array (unit value in the heap model) is also being
+// accessed elementwise. Reads are merely imprecise; writes through such a view would not
+// update the unit value, so later stores/copies to cells of that element type taint.
+func (f *FnEnc) noteArrView(elem types.Type) {
+	if f.viewElem == nil {
+		f.viewElem = map[string]bool{}
+	}
+	f.viewElem[typeKey(elem.Underlying())] = true
 }
